@@ -93,6 +93,11 @@ class TLoop(vloop.VLoop):
         self._jobs = 0
         self._blocked = 0
         self._idle = 0
+        # own worker pool, shut down without asyncio's shutdown_default_executor (whose abandoned coroutine can
+        # dead-lock the interpreter when it is finalised in another thread)
+        import concurrent.futures
+        self._pool = concurrent.futures.ThreadPoolExecutor(max_workers=6, thread_name_prefix="c16")
+        self.set_default_executor(self._pool)
 
     def run_in_executor(self, executor, func, *args):
         fut = super().run_in_executor(executor, func, *args)
@@ -139,7 +144,9 @@ def tloop_run(coro_factory, *a):
                 t.cancel()
             if pending:
                 loop.run_until_complete(asyncio.wait_for(asyncio.gather(*pending, return_exceptions=True), 30))
-            loop.run_until_complete(loop.shutdown_default_executor(10))
+            loop._pool.shutdown(wait=False, cancel_futures=True)
+            for t in list(loop._pool._threads):
+                t.join(5)
         except Exception:
             pass
         asyncio.set_event_loop(None)
